@@ -168,4 +168,22 @@ def specGlobDir (ext nc dotglob : Bool) (p : Str) (names : List Str) : Option (L
   (specParse ext p).map fun q =>
     sortStrs (names.filter fun n => matchB nc q n && (!startsWithDot n || dotglob || startsWithDot p))
 
+/-! ## piece lists: quoted pieces are literal text, whatever characters they hold -/
+
+/-- bash's reading of a piece list as one pattern text: every character of a quoted piece is
+backslash-quoted, so that no character of it can take part in pattern syntax -/
+def specPiecesText (ps : List PatPiece) : Str :=
+  ps.flatMap fun p => match p with
+    | .lit s => s.flatMap fun c => ['\\', c]
+    | .pat s => s
+
+def specPiecesMatch (ext nc : Bool) (ps : List PatPiece) (s : Str) : Option Bool :=
+  specMatches ext nc (specPiecesText ps) s
+
+/-- pathname expansion of a one-component piece list: the matching names (empty = word kept) -/
+def specExpandPieces (ext nc dotglob : Bool) (ps : List PatPiece) (names : List Str) : Option (List Str) :=
+  (specParse ext (specPiecesText ps)).map fun q =>
+    let lead := match ps with | p :: _ => startsWithDot p.raw | [] => false
+    sortStrs (names.filter fun n => matchB nc q n && (!startsWithDot n || dotglob || lead))
+
 end BrushVerif.Glob
